@@ -19,14 +19,14 @@ PROP = Property(
         "gorums.ServerCtx for ExecCommand is constructed by the harness with the fields gorums fills in (no exported constructor)",
     ],
     assumptions=[
-        "cross-replica clause (Props/C06Sys executed_prefix_related): composed from C01's ledger theorem for the system of replica models (chained / simplified HotStuff, ECDSA / EdDSA, at most f Byzantine, content addressing CA'; no theorem for Fast-HotStuff) and executed_prefix; that Execute events follow Commit events block by block is read off the model (commitInner queues the two events together) and checked by the replica correspondence",
+        "cross-replica clause (Props/C06Sys executed_prefix_related): composed from C01's ledger theorem for the system of replica models (all three rulesets: executed_prefix_related, executed_prefix_related_fast; ECDSA / EdDSA, at most f Byzantine, content addressing) and executed_prefix; that Execute events follow Commit events block by block is read off the model (commitInner queues the two events together) and checked by the replica correspondence",
         "one_outcome: every ExecCommand call has its own reply channel (true by construction: the channel is made inside the call)",
     ],
-    partial="the cross-replica clause has no theorem for Fast-HotStuff (as C01); the command cache / markProposed path is C15's subject",
+    partial="the command cache / markProposed path is C15's subject; BLS is not covered by the system-level theorems the cross-replica clause rests on",
 )
 
 META = {
-    "text": "Proof: over the model of server/clientio.go (ExecCommand registration, Exec, Abort, isDuplicate, completeCommand; digest = SHA-256 of the executed data, computed in Lean): executed_is_function_of_chain (the executed list after ANY interleaving of registrations, executions and aborts equals execStream of the concatenated committed batches — independent of clients, aborts and timing), executed_prefix (a replica whose committed stream extends another's has an executed list extending the other's, hence equal digests after equally many commands), executed_increasing and executed_nodup_ids (per client strictly increasing sequence numbers; no (client, seq) executed twice even when it appears in several blocks), one_outcome (no reply channel receives two outcomes; a success outcome only for a command in the executed list). Cross-replica (Props/C06Sys): executed_prefix_related — in the system of replica models, under any adversary of the model, the executed command sequences of any two honest replicas (the filter applied to the commands of their commit logs, block by block) are prefix-related; composed from C01's ledgers_prefix_related and executed_prefix. Tie: the real server.ClientIO behind its real event-loop registrations, real ExecCommand calls blocked in goroutines, driven with random interleavings of submissions, committed blocks with overlapping/duplicate/stale commands and aborts; outcomes per waiter, CmdCount and Hash compared line by line with the model and re-checked by an independent oracle (count never grows by more than the number of never-seen ids, no second outcome, success only for a command executed by this batch); the order of ExecuteEvent/AbortEvent against commits is compared at replica level (commitInner ancestor-first, abort after prune) on the C03 scripts.",
-    "note": "Trusted: as C03 plus the Lean SHA-256 and the harness-built gorums.ServerCtx. Cross-replica prefix relation: executed_prefix_related (through C01's ledger theorem; not for Fast-HotStuff).",
+    "text": "Proof: over the model of server/clientio.go (ExecCommand registration, Exec, Abort, isDuplicate, completeCommand; digest = SHA-256 of the executed data, computed in Lean): executed_is_function_of_chain (the executed list after ANY interleaving of registrations, executions and aborts equals execStream of the concatenated committed batches — independent of clients, aborts and timing), executed_prefix (a replica whose committed stream extends another's has an executed list extending the other's, hence equal digests after equally many commands), executed_increasing and executed_nodup_ids (per client strictly increasing sequence numbers; no (client, seq) executed twice even when it appears in several blocks), one_outcome (no reply channel receives two outcomes; a success outcome only for a command in the executed list). Cross-replica (Props/C06Sys): executed_prefix_related — in the system of replica models, under any adversary of the model, the executed command sequences of any two honest replicas (the filter applied to the commands of their commit logs, block by block) are prefix-related; composed from C01's ledgers_prefix_related(_fast) and executed_prefix, for all three rulesets. Tie: the real server.ClientIO behind its real event-loop registrations, real ExecCommand calls blocked in goroutines, driven with random interleavings of submissions, committed blocks with overlapping/duplicate/stale commands and aborts; outcomes per waiter, CmdCount and Hash compared line by line with the model and re-checked by an independent oracle (count never grows by more than the number of never-seen ids, no second outcome, success only for a command executed by this batch); the order of ExecuteEvent/AbortEvent against commits is compared at replica level (commitInner ancestor-first, abort after prune) on the C03 scripts.",
+    "note": "Trusted: as C03 plus the Lean SHA-256 and the harness-built gorums.ServerCtx. Cross-replica prefix relation: executed_prefix_related(_fast) (through C01's ledger theorems, all three rulesets).",
     "technique": "Lean 4 theorems over a ClientIO model (function-of-chain, no double execution, single outcome) + differential correspondence with the real ClientIO and event loop + oracle",
 }
